@@ -116,7 +116,7 @@ def run(ctx):
                 common = base + ["--protect"]
                 jobs.append(((automata[kind], kind, fl, cap, "cover", common), {}))
                 jobs.append(((automata[kind], kind, fl, cap, "paths", base + ["--depth", 5, "--budget", budget]), {}))
-                variants = ([], ["insert_at"]) if kind == "slotmap" else ([],)
+                variants = ([],)
                 for n, excl in enumerate(variants):
                     walks, steps = (4, 400) if quick else (6, 10000)
                     o = common + ["--walks", walks, "--steps", steps] + (["--exclude", ",".join(excl)] if excl else [])
